@@ -6,7 +6,8 @@ import re
 from harness import ll_common as lc
 from harness import wrapsym
 
-BUILD_KEYS = {"c++": ("strs.yaml", "strs.hpp"), "c": ("cstrs.yaml", "cstrs.h")}
+CFI_KEY = ("stc.yaml", "stc.hpp")          # the C++ string library generated with F_CFI: true
+BUILD_KEYS = {"c++": ("strs.yaml", "strs.hpp"), "c": ("cstrs.yaml", "cstrs.h"), "cfi": CFI_KEY}
 ASSUMPTIONS = [
     "wrappers: the wrapped library function is a nondeterministic stub; it reads NUL-terminated strings (a non-terminated argument is reported as an out-of-bounds read), writes NUL-terminated replies that fit the object it was given, returns NULL or a NUL-terminated string of length <= capacity; std::string replies contain no NUL",
     "wrappers: caller buffers are exact-fit objects of the given len (or len_trim when only that is passed)",
@@ -25,6 +26,8 @@ def specs(cap, langs):
             kinds = [p.kind() for p in info.params] + ([info.result.kind()] if info.result else [])
             if any(k in ("vector", "class", "struct") for k in kinds):
                 continue
+            if lang == "cfi" and not cname.endswith("_CFI"):
+                continue        # (the plain entry points are those of the library without the option)
             out.append(("harness.wrapsym", "make", dict(build_key=list(key), cname=cname, cap=cap)))
             labels.append("wrapper %s (%s)" % (cname, lang))
     return out, labels
@@ -81,6 +84,8 @@ def validate_sample(w):
 def native_run(w):
     """-> (agree, sanitizer text|None, native observables, symbolic observables) or None"""
     key = tuple(w["build"])
+    if key == CFI_KEY:
+        return None
     b = lc.get_build(key)
     infos = wrapsym.collect(b)
     info = infos.get(w["function"])
